@@ -52,7 +52,14 @@ func VerifC16DevMode() {
 	symCover("devmode")
 	for i := range lits {
 		w := &verifDevRec{}
-		err := WriteString(w, i+1, "stale text compiled into the binary")
+		// the string compiled into the running binary is stale: any text, in particular one
+		// that happens to equal the escaped spelling of the new literal (an edit that un-doubles
+		// a backslash or replaces a typed-out escape by the character itself)
+		compiled := "stale text compiled into the binary"
+		if symBool("compiledEqualsEscaped") {
+			compiled = escaped[i]
+		}
+		err := WriteString(w, i+1, compiled)
 		symAssert(err == nil, "development-mode WriteString finds literal i")
 		if err != nil {
 			return
